@@ -19,7 +19,9 @@ RULE = ("every raster of each listed shape over each listed alphabet (mixed-radi
         "flood-fill / even-odd reference + 1 call per transform compared vertex by vertex with the transformed "
         "untransformed output; ranks of a 'cellstates' space that repeat the input of another rank (no excluded cell, "
         "fill letter > 0) are skipped and not counted as cases; a case is non-trivial when the output has >= 2 polygons "
-        "or a polygon with a hole; distinct = distinct digests of (column values, ring vertex arrays)")
+        "or a polygon with a hole; distinct = distinct digests of (column values, ring vertex arrays); spaces named "
+        "*_r<L>[_m<L>] repeat the enumeration of their un-suffixed namesake with the raster / mask held in memory layout L "
+        "(C, F, T = transposed view, S = strided view)")
 ASSUMPTIONS = [
     "orientation convention taken from the module header and tests/test_polygonize.py: x = column index, y = row "
     "index ('+x is East, +y is North'), cell (row r, col c) is the unit square [c,c+1]x[r,r+1]; 'anticlockwise' "
@@ -35,9 +37,13 @@ ASSUMPTIONS = [
     "generated; no NaN",
     "8-connectivity rings may touch themselves at a corner (diagonal pinch); this is accepted, the statement is "
     "asserted through the even-odd rule on cell centres and the signed areas, not through ring simplicity",
-    "numpy backend, return_type='numpy', C-contiguous inputs, DataArray without coordinates (polygonize ignores "
-    "coordinates); rasters beyond the cell budgets and the 'random larger ones' of the quantifier are not explored "
-    "(no sampling in this engine)",
+    "numpy backend, return_type='numpy', DataArray without coordinates (polygonize ignores coordinates); rasters "
+    "beyond the cell budgets and the 'random larger ones' of the quantifier are not explored (no sampling in this engine)",
+    "memory layout: the spaces without a layout suffix pass C-contiguous arrays; the *_r<L>[_m<L>] spaces pass the SAME "
+    "logical raster (and mask) held in another memory layout, L in {C, F = np.asfortranarray, T = the view returned by "
+    "DataArray.transpose() of a DataArray holding the transposed C-ordered array, S = every second column of a C-ordered "
+    "array twice as wide (neither C- nor F-contiguous)}, on the non-square shapes 2x3, 3x2, 3x4 where memory order and "
+    "logical order differ; the reference works on logical cell positions only",
     "mask families.  'all' (rasters of <= 9 cells): each of the 2^N boolean masks x every raster over the alphabet, "
     "values under excluded cells included (quick: 1x1, 1xN/Nx1 N<=7, 2x2, 2x3, 3x2 over {0,1}; thorough adds 3x3, "
     "2x4, 4x2, 1x8, 8x1 over {0,1} and 2x2, 2x3, 3x2, lines N<=6 over {0,1,2}).  'cellstates' (3x3; quick {0,1}, "
@@ -87,6 +93,26 @@ DT3 = ("int64", "int32", "float64")
 FLT = ("float64", "float32")
 NEG3 = (-1.5, 0.0, 2.5)          # float alphabets with negative letters (dyadic, pairwise far apart)
 NEG2 = (-2.0, -1.0)
+RECT6 = [(2, 3), (3, 2)]
+# (raster layout, mask layout): both in the same non-C layout, and one of them C-ordered next to an F / T one
+# (the all-C pair is the spaces without a suffix)
+LAYOUT_PAIRS = [("F", "F"), ("T", "T"), ("S", "S"), ("C", "F"), ("F", "C"), ("C", "T"), ("T", "C")]
+
+
+def lay_out(a, layout, DataArray):
+    """DataArray holding the logical 2-D array `a` in the given memory layout (see ASSUMPTIONS)."""
+    if layout == "C":
+        return DataArray(np.array(a, order="C"))          # a fresh copy
+    if layout == "F":
+        return DataArray(np.asfortranarray(a))
+    if layout == "T":
+        return DataArray(np.ascontiguousarray(a.T), dims=("dim_1", "dim_0")).transpose()
+    if layout == "S":
+        wide = np.zeros((a.shape[0], 2 * a.shape[1]), dtype=a.dtype)
+        wide[:, ::2] = a
+        wide[:, 1::2] = ~a[:, ::-1] if a.dtype == bool else a[:, ::-1] + 1          # other values in between
+        return DataArray(wide[:, ::2])
+    raise ValueError(layout)
 
 # (label, shapes, alphabet, dtypes, mask family, mask dtype)
 SPEC = {
@@ -105,6 +131,12 @@ SPEC = {
         ("3x3_neg2l", [(3, 3)], NEG2, FLT, "none", "bool"),
         ("lines8_neg2l", LINES(8), NEG2, FLT, "none", "bool"),
         ("small6_neg2l", [(2, 2), (2, 3), (3, 2)], NEG2, ("float64",), "all", "bool"),
+        # memory layout of raster / mask (non-square shapes: memory order != logical order)
+        ("rect6_2l", RECT6, (0, 1), ("int64",), "all", "bool", LAYOUT_PAIRS),
+        ("rect6_2l", RECT6, (0, 1), ("float64",), "all", "bool", [("F", "F")]),
+        ("3x4_2l", [(3, 4)], (0, 1), ("int64",), "none", "bool", [(l, None) for l in "FTS"]),
+        ("3x4_2l", [(3, 4)], (0, 1), ("float64",), "none", "bool", [("F", None)]),
+        ("3x4_2l", [(3, 4)], (0, 1), ("int64",), "named", "bool", [("F", "F")]),
     ],
 }
 SPEC["thorough"] = SPEC["quick"] + [
@@ -125,9 +157,21 @@ SPEC["thorough"] = SPEC["quick"] + [
     ("4x5_2l", [(4, 5)], (0, 1), ("int64",), "named", "bool"),
     ("3x4_3l", [(3, 4)], (0, 1, 2), ("int64",), "named", "bool"),
     ("4x4_2l", [(4, 4)], (0, 1), ("float64", "int32"), "named", "bool"),
+    ("rect6_3l", RECT6, (0, 1, 2), ("int64",), "all", "bool", [("F", "F"), ("T", "T")]),
+    ("rect8_2l", [(2, 4), (4, 2)], (0, 1), ("int64",), "all", "bool", [("F", "F"), ("T", "T")]),
+    ("3x4_3l", [(3, 4)], (0, 1, 2), ("int64",), "none", "bool", [("F", None)]),
+    ("3x4_2l", [(3, 4)], (0, 1), ("int64",), "named", "bool", [("T", "T"), ("S", "S"), ("F", "C"), ("C", "T")]),
+    ("rect6_2l", RECT6, (0, 1), ("int64",), "all", "bool", [("F", "T"), ("T", "F")]),
+    ("rect6_2l", RECT6, (0, 1), ("float64",), "all", "bool", [("T", "T"), ("S", "S")]),
+    ("3x4_2l", [(3, 4)], (0, 1), ("float64",), "none", "bool", [("T", None), ("S", None)]),
 ]
+# every entry gets its list of (raster layout, mask layout); default: C-contiguous raster and mask
+SPEC = {t: [e if len(e) == 7 else e + ([("C", "C")],) for e in spec] for t, spec in SPEC.items()}
 BOUNDS = {t: {"spaces": [dict(label=n, shapes=[list(s) for s in shapes], alphabet=list(al), dtypes=list(dts),
-                              masks=mm, mask_dtype=md) for n, shapes, al, dts, mm, md in spec],
+                              masks=mm, mask_dtype=md, layouts_raster_mask=[list(lp) for lp in lps])
+                         for n, shapes, al, dts, mm, md, lps in spec],
+              "layouts": {"C": "C-contiguous", "F": "np.asfortranarray", "T": "DataArray.transpose() view of the "
+                          "transposed C-ordered array", "S": "every second column of a C-ordered array twice as wide"},
               "mask_families": {"none": "mask=None",
                                 "all": "every one of the 2^N masks x every raster over the alphabet",
                                 "cellstates": "every assignment of {alphabet letters, EXCLUDED} to the cells x one "
@@ -144,12 +188,15 @@ BOUNDS = {t: {"spaces": [dict(label=n, shapes=[list(s) for s in shapes], alphabe
 class PolySpace(Space):
     mode = "jit"
 
-    def __init__(self, label, shapes, alphabet, dtype, family, mask_dtype):
+    def __init__(self, label, shapes, alphabet, dtype, family, mask_dtype, layouts=("C", "C")):
         self.alphabet, self.dtype, self.family, self.mask_dtype = tuple(alphabet), dtype, family, mask_dtype
+        self.rlay, self.mlay = layouts[0], (None if family == "none" else layouts[1])
         short = {"int64": "i8", "int32": "i4", "float64": "f8", "float32": "f4"}
         self.name = "poly_%s_%s_%s" % (label, short[dtype], {"none": "nomask", "all": "allmasks"}.get(family, family))
         if mask_dtype != "bool":
             self.name += "_m" + short[mask_dtype]
+        if (self.rlay, self.mlay or "C") != ("C", "C"):
+            self.name += "_r" + self.rlay + ("" if self.mlay is None else "_m" + self.mlay)
         L = len(self.alphabet)
         # parts: (shape, excluded-cells bit set or None, number of cases)
         self.parts = []
@@ -179,10 +226,13 @@ class PolySpace(Space):
         self.polygonize = polygonize
         self.DataArray = xr.DataArray
         # compile the two signatures this space uses before the first shard
-        a = np.zeros((2, 2), dtype=self.dtype)
-        m = None if self.family == "none" else xr.DataArray(np.ones((2, 2), dtype=self.mask_dtype))
-        polygonize(xr.DataArray(a), mask=m)
-        polygonize(xr.DataArray(a), mask=m, transform=np.array([1.0, 0.0, 0.0, 0.0, 1.0, 0.0]))
+        a = np.zeros((2, 3), dtype=self.dtype)
+        m = None if self.family == "none" else self.lay(np.ones((2, 3), dtype=self.mask_dtype), self.mlay)
+        polygonize(self.lay(a, self.rlay), mask=m)
+        polygonize(self.lay(a, self.rlay), mask=m, transform=np.array([1.0, 0.0, 0.0, 0.0, 1.0, 0.0]))
+
+    def lay(self, a, layout):
+        return lay_out(a, layout, self.DataArray)
 
     # ---- rank -> case ------------------------------------------------------------------------------------
     def case(self, rank):
@@ -225,9 +275,12 @@ class PolySpace(Space):
             return {"space": self.name, "rank": rank, "note": "repeats the input of the rank with fill letter 0"}
         shape, a, mask, conn = c
         return {"raster": a, "mask": None if mask is None else mask.astype(self.mask_dtype),
+                "raster_layout": self.rlay, "mask_layout": self.mlay,
                 "connectivity": conn, "transforms": {n: t for n, t in transforms(shape)}}
 
     def key(self, a, mask, conn, extra=""):
+        if (self.rlay, self.mlay or "C") != ("C", "C"):
+            extra = "|layout=%s/%s%s" % (self.rlay, self.mlay, extra)
         return "polygonize|raster=%s|dtype=%s|mask=%s|mask_dtype=%s|conn=%d%s" % (
             a.tolist(), self.dtype, None if mask is None else mask.astype(int).tolist(), self.mask_dtype, conn, extra)
 
@@ -243,8 +296,8 @@ class PolySpace(Space):
             return
         shape, a, mask, conn = c
         h, w = shape
-        ra = self.DataArray(a.copy())
-        rm = None if mask is None else self.DataArray(mask.astype(self.mask_dtype))
+        ra = self.lay(a, self.rlay)
+        rm = None if mask is None else self.lay(mask.astype(self.mask_dtype), self.mlay)
         tfs = transforms(shape)
         try:
             col, polys = self.polygonize(ra, mask=rm, connectivity=conn, return_type="numpy")
@@ -368,4 +421,5 @@ class PolySpace(Space):
 
 
 def build(tier):
-    return [PolySpace(n, shapes, al, dt, mm, md) for n, shapes, al, dts, mm, md in SPEC[tier] for dt in dts]
+    return [PolySpace(n, shapes, al, dt, mm, md, lp) for n, shapes, al, dts, mm, md, lps in SPEC[tier] for dt in dts
+            for lp in lps]
